@@ -17,7 +17,7 @@
     DELETE, RENAME incl. RENAME INBOX, SUBSCRIBE, UNSUBSCRIBE) and ALL crash
     points [k]. *)
 From Coq Require Import String Ascii List Bool ZArith Arith.
-From Raven Require Import Base.GoStr Model.Store Model.Ops Model.Micro Spec.UidSpec Spec.Crash
+From Raven Require Import Base.GoStr Model.Store Model.Ops Model.Micro Model.MicroView Spec.UidSpec Spec.Crash
   Proof.StoreInv Proof.MicroRefine Proof.MicroBase Proof.MicroWF Proof.MicroInbox Proof.MicroCrash Proof.MicroUid.
 Import ListNotations.
 Local Open Scope Z_scope.
@@ -186,4 +186,24 @@ Example c07_mixed_workload :
   length (all_points W_MIXED) = 70%nat /\
   forallb (fun k => recovers_b (crash_at absent W_MIXED k) 200 W_SHAPE) (all_points W_MIXED) = true /\
   forallb op_plain W_MIXED = true.
+Proof. vm_compute. repeat split. Qed.
+
+(** the property's spec on an OBSERVED store ([crash_spec_b], Spec/Crash.v: every
+    link of the acknowledged state still there unless the command in flight
+    removes it, messages and mailboxes not lost, listed messages complete,
+    nothing invented) — the check evaluates it on every recovered store.  It
+    holds on every crash state of the model for workloads that copy from,
+    expunge, rename and delete NON-EMPTY mailboxes, and it rejects the store a
+    non-atomic DELETE leaves (mailbox 6 still listed, its two acknowledged
+    messages gone) — the state of seeded change C07-3. *)
+Example c07_observed_state_spec :
+  spec_on_model_from absent W_MIXED = true /\
+  spec_on_model_from absent W_REMOVE = true /\
+  (let dA := run_all absent (firstn 9 W_REMOVE) in
+   let dL := run_all absent (firstn 10 W_REMOVE) in
+   length (links_named (d_st dA) (S_ "Arch2")) = 1%nat /\
+   crash_spec_b dA dL [dA; dL] (obs_of dA) = true /\
+   crash_spec_b dA dL [dA; dL] (obs_of dL) = true /\
+   crash_spec_b dA dL [dA; dL] (obs_of (emptied dA 6)) = false /\
+   lost_links dA dL (obs_of (emptied dA 6)) = [(6, 2, 3)]).
 Proof. vm_compute. repeat split. Qed.
